@@ -611,6 +611,7 @@ htp_status_t htp_parse_hostport(bstr *hostport, bstr **hostname, bstr **port, in
                 *port = bstr_dup_mem(data + pos + 1, len - pos - 1);
                 if (*port == NULL) {
                     bstr_free(*hostname);
+                    *hostname = NULL;
                     return HTP_ERROR;
                 }
             }
@@ -646,6 +647,7 @@ htp_status_t htp_parse_hostport(bstr *hostport, bstr **hostname, bstr **port, in
                 *port = bstr_dup_mem(colon + 1, len - (colon + 1 - data));
                 if (*port == NULL) {
                     bstr_free(*hostname);
+                    *hostname = NULL;
                     return HTP_ERROR;
                 }
             }
